@@ -81,6 +81,34 @@ class SV:
         return f"SV({self.t})"
 
 
+class SOpt:
+    """Optional[T]: None when `none` holds, else the typed value v"""
+
+    __slots__ = ("none", "v")
+
+    def __init__(self, none, v):
+        self.none = none
+        self.v = v
+
+    def __repr__(self):
+        return f"SOpt({self.none},{self.v!r})"
+
+
+def mk_opt(none, v):
+    n = z3.simplify(none) if not isinstance(none, bool) else none
+    if isinstance(n, bool):
+        return None if n else v
+    if z3.is_true(n):
+        return None
+    if z3.is_false(n):
+        return v
+    if v is None:
+        return None
+    if isinstance(v, SOpt):
+        return SOpt(z3.Or(n, v.none), v.v)
+    return SOpt(n, v)
+
+
 class Atom:
     """an opaque string piece: a formatted parameter or a user supplied name"""
 
@@ -223,7 +251,7 @@ class Ref:
         return hash(("Ref", self.oid))
 
 
-SYMS = (SInt, SFloat, SBool, SNum, SV)
+SYMS = (SInt, SFloat, SBool, SNum, SV, SOpt)
 
 
 def is_sym(v):
@@ -248,6 +276,8 @@ def concretize(v):
         if z3.is_false(s):
             return False
         return SBool(s)
+    if isinstance(v, SOpt):
+        return mk_opt(v.none, concretize(v.v))
     return v
 
 
@@ -265,6 +295,10 @@ def to_int_term(v):
         return v.t
     if isinstance(v, SBool):
         return z3.If(v.t, z3.IntVal(1), z3.IntVal(0))
+    if z3.is_expr(v) and v.sort() == z3.IntSort():
+        return v
+    if isinstance(v, SOpt):
+        return to_int_term(v.v)
     raise Unsupported(f"int term of {v!r}")
 
 
@@ -283,6 +317,12 @@ def to_real_term(v):
         return z3.If(v.t, z3.RealVal(1), z3.RealVal(0))
     if isinstance(v, SV):
         return z3.If(V.is_vbool(v.t), z3.If(V.bv(v.t), z3.RealVal(1), z3.RealVal(0)), V.nv(v.t))
+    if z3.is_expr(v) and v.sort() == z3.IntSort():
+        return z3.ToReal(v)
+    if z3.is_expr(v) and v.sort() == z3.RealSort():
+        return v
+    if isinstance(v, SOpt):
+        return to_real_term(v.v)
     raise Unsupported(f"real term of {v!r}")
 
 
@@ -303,6 +343,8 @@ def isfloat_term(v):
         return v.isf if not isinstance(v.isf, bool) else z3.BoolVal(v.isf)
     if isinstance(v, SV):
         return z3.And(V.is_vnum(v.t), V.isf(v.t))
+    if isinstance(v, SOpt):
+        return z3.And(z3.Not(v.none), isfloat_term(v.v))
     raise Unsupported(f"isfloat of {v!r}")
 
 
@@ -317,6 +359,8 @@ def to_V(v, heap=None):
         return V.vnum(to_real_term(v), isfloat_term(v))
     if isinstance(v, SV):
         return v.t
+    if isinstance(v, SOpt):
+        return z3.If(v.none, V.vnone, to_V(v.v, heap))
     if isinstance(v, Ref) and heap is not None:
         p = heap[v.oid]
         if type(p).__name__ == "DictP":
@@ -326,6 +370,18 @@ def to_V(v, heap=None):
 
 def is_numeric_static(v):
     return isinstance(v, (int, float, SInt, SFloat, SNum, SBool)) and not isinstance(v, str)
+
+
+def num_class(v):
+    if isinstance(v, bool) or isinstance(v, SBool):
+        return "bool"
+    if isinstance(v, (int, SInt)):
+        return "int"
+    if isinstance(v, (float, SFloat)):
+        return "float"
+    if isinstance(v, SNum):
+        return "num"
+    return None
 
 
 def v_is_numlike(t):
@@ -365,6 +421,8 @@ def truthy_term(v, heap=None):
         return v.t != 0
     if isinstance(v, (SFloat, SNum)):
         return v.t != 0
+    if isinstance(v, SOpt):
+        return zand(znot(v.none), zbool(truthy_term(v.v, heap)))
     if isinstance(v, SV):
         t = v.t
         return z3.If(
@@ -452,6 +510,9 @@ def _trunc(x):
 
 def num_coerce(v, need):
     """make an arithmetic operand static; SV operands must be numbers (else TypeError)"""
+    if isinstance(v, SOpt):
+        need(znot(v.none), "TypeError")
+        return num_coerce(v.v, need)
     if isinstance(v, SV):
         need(v_is_numlike(v.t), "TypeError")
         return SNum(to_real_term(v), isfloat_term(v))
@@ -615,9 +676,9 @@ def compare(op, a, b, need, heap=None):
         r = py_eq(a, b, heap)
         return znot(r) if op == "!=" else r
     # ordering
-    if isinstance(a, SV):
+    if isinstance(a, (SV, SOpt)):
         a = num_coerce(a, need)
-    if isinstance(b, SV):
+    if isinstance(b, (SV, SOpt)):
         b = num_coerce(b, need)
     if a is None or b is None or isinstance(a, Ref) or isinstance(b, Ref):
         need(False, "TypeError")
@@ -649,8 +710,14 @@ def _is(a, b):
             return True
         if isinstance(a, SV):
             return V.is_vnone(a.t)
+        if isinstance(a, SOpt):
+            return a.none
         return False
     if a is None:
+        return _is(b, a)
+    if isinstance(a, SOpt):
+        return zand(znot(a.none), zbool(_is(a.v, b)))
+    if isinstance(b, SOpt):
         return _is(b, a)
     if isinstance(b, bool):
         if isinstance(a, bool):
@@ -670,6 +737,14 @@ def _is(a, b):
 def py_eq(a, b, heap=None):
     if a is None and b is None:
         return True
+    if isinstance(a, SOpt) or isinstance(b, SOpt):
+        if not isinstance(a, SOpt):
+            a, b = b, a
+        if b is None:
+            return a.none
+        if isinstance(b, SOpt):
+            return zor(zand(a.none, b.none), zand(znot(a.none), znot(b.none), zbool(py_eq(a.v, b.v, heap))))
+        return zand(znot(a.none), zbool(py_eq(a.v, b, heap)))
     if isinstance(a, (str, Tmpl)) and isinstance(b, (str, Tmpl)):
         if a == b:
             return True
@@ -725,6 +800,8 @@ def py_eq(a, b, heap=None):
 
 def py_isinstance(v, tname, heap=None):
     """tname in float,int,bool,dict,list,str,NoneType or a class name; returns bool / z3 Bool"""
+    if isinstance(v, SOpt):
+        return zand(znot(v.none), zbool(py_isinstance(v.v, tname, heap)))
     if tname == "float":
         if isinstance(v, (float, SFloat)):
             return True
